@@ -44,7 +44,8 @@ _COMPS = (ast.ListComp, ast.SetComp, ast.DictComp, ast.GeneratorExp)
 
 
 class Ev:
-    """One thing that happens on a path.  kind: call | store | del | aug | raise | return | cond | obj (a local object that is
+    """One thing that happens on a path.  kind: call | store | del | aug | raise | return | cond | iter / iterend (one turn of a loop
+    starts / is over; node = the loop) | obj (a local object that is
     mutated later is created: expr = its name, value = what it is created from)."""
 
     __slots__ = ("kind", "expr", "value", "pol", "node", "maybe", "facts", "_key")
@@ -55,9 +56,13 @@ class Ev:
         self._key = None
 
     def as_maybe(self):
+        if self.kind in ("iter", "iterend"):
+            return self
         return Ev(self.kind, self.expr, self.node, value=self.value, pol=self.pol, maybe=True, facts=self.facts)
 
     def key(self):
+        if self._key is None and self.kind in ("iter", "iterend"):
+            self._key = (self.kind, id(self))  # markers are never identified with one another
         if self._key is None:
             self._key = (self.kind, id(self.node), self.pol, unparse(self.expr) if self.expr is not None else None,
                          unparse(self.value) if self.value is not None else None)
@@ -90,6 +95,20 @@ class Path:
         for i, e in enumerate(self.trace):
             if e.kind == "call" and id(e.expr) in nodes:
                 return i
+        return None
+
+    def iteration_of(self, ev):
+        """Position of the `iter` marker of the innermost loop turn inside which the event happens, or None."""
+        i = next((k for k, e in enumerate(self.trace) if e is ev), None)
+        depth = 0
+        for k in range((i if i is not None else 0) - 1, -1, -1):
+            e = self.trace[k]
+            if e.kind == "iterend":
+                depth += 1
+            elif e.kind == "iter":
+                if depth == 0:
+                    return k
+                depth -= 1
         return None
 
     def before(self, ev):
@@ -1028,7 +1047,9 @@ class Sym:
                     yield from self._block(s.orelse, s1, fr)
                 else:
                     self._havoc(names, s1, fr, s)
+                    s1.add("iter", None, s)
                     for s2, sig, val in self._block(s.body, s1, fr):
+                        s2.add("iterend", None, s)
                         if sig in _LEAVES:
                             yield s2, sig, val
                         else:
@@ -1156,7 +1177,9 @@ class Sym:
             for x in ast.walk(s.target):
                 if isinstance(x, ast.Name):
                     s1.envs[fr.fid][x.id] = ast.Name(id=self._objname(x.id, fr), ctx=ast.Load())
+            s1.add("iter", None, s)
             for s2, sig, val in self._block(s.body, s1, fr):
+                s2.add("iterend", None, s)
                 if sig in _LEAVES:
                     yield s2, sig, val
                     continue
@@ -1189,7 +1212,9 @@ class Sym:
             yield from self._block(s.orelse, st, fr)
             return
         for s1 in self._assign_target(s.target, copy.deepcopy(elems[i]), st, fr, s):
+            s1.add("iter", None, s)
             for s2, sig, val in self._block(s.body, s1, fr):
+                s2.add("iterend", None, s)
                 if sig in _LEAVES:
                     yield s2, sig, val
                 elif sig == "break":
